@@ -449,3 +449,24 @@ func b2i(b bool) int {
 //@   requires c.ssaBuilder != nil && c.m != nil && int(typeIndex) < len(c.m.TypeSection) && len(c.loweringState.values) >= 1 && len(c.loweringState.values)-1 >= len(c.m.TypeSection[typeIndex].Params)
 //@   ensures[memory-reloaded-after-the-call] c.needMemory && !c.memoryShared ==> gg("H:lenReloads") == old(gg("H:lenReloads"))+1 && gg("H:baseReloads") == old(gg("H:baseReloads"))+1
 //@   nosafety keep-pre
+
+//@ prop C04 C14
+// A direct call: a function of this module is called by reference with this module's context; an imported
+// function is called through the executable pointer loaded from the import's slot in the module context
+// (where the module engine stored the EXPORTER's function and module context).
+//@ func (c *Compiler) prepareCall(fnIndex uint32) (isIndirect bool, sig *ssa.Signature, args ssa.Values, funcRefOrPtrValue uint64)
+//@   requires c.ssaBuilder != nil && c.m != nil
+//@   ensures[own-function-by-reference] fnIndex >= c.m.ImportFunctionCount ==> !isIndirect && funcRefOrPtrValue == uint64(FunctionIndexToFuncRef(fnIndex))
+//@   ensures[imported-function-through-its-slot] fnIndex < c.m.ImportFunctionCount ==> isIndirect && ssa.IsLoaded(ssa.Value(funcRefOrPtrValue)) && ssa.LoadedFrom(ssa.Value(funcRefOrPtrValue)) == c.moduleCtxPtrValue && ssa.LoadedAt(ssa.Value(funcRefOrPtrValue)) == uint64(importedFuncPtrOffset(c, fnIndex).U32())
+//@   modifies ghost("*"), c.loweringState.values
+//@   nosafety
+
+//@ func (c *Compiler) lowerCall(fnIndex uint32)
+//@   requires c.ssaBuilder != nil && c.m != nil
+//@   ensures[memory-reloaded-after-the-call] c.needMemory && !c.memoryShared ==> gg("H:lenReloads") == old(gg("H:lenReloads"))+1 && gg("H:baseReloads") == old(gg("H:baseReloads"))+1
+//@   nosafety
+
+func importedFuncPtrOffset(c *Compiler, fnIndex uint32) wazevoapi.Offset {
+	f, _, _ := c.offset.ImportedFunctionOffset(fnIndex)
+	return f
+}
